@@ -209,6 +209,12 @@ def bad_lines():
     ]
 
 
+# JSON values that are not objects but "contain" the three required field names (as elements, as substrings, one level down)
+NAMES_AS_ELEMENTS = [b'["task_uuid", "task_level", "timestamp"]\n', b'["timestamp", "task_level", "task_uuid", 1, null]\n',
+                     b'"task_uuid task_level timestamp"\n', b'{"a": ["task_uuid", "task_level", "timestamp"]}\n',
+                     b'[{"task_uuid": "u", "task_level": [1], "timestamp": 1.0}]\n', b'["task_uuid", "task_level"]\n']
+
+
 def tolerated_lines(rng):
     """foreign lines the program is expected to report or format without trouble"""
     base = {"task_uuid": "u", "task_level": [1], "timestamp": 1.0}
@@ -231,6 +237,7 @@ def tolerated_lines(rng):
     out.append(bytes(rng.randrange(256) for _ in range(rng.randint(1, 12))).replace(b"\n", b"?") + b"\n")
     for d in (100, 200, 280):
         out.append(b'{"task_uuid":"u","task_level":[1],"timestamp":1.0,"x":' + b"[" * d + b"]" * d + b"}\n")
+    out += NAMES_AS_ELEMENTS
     # a file name decoded with surrogateescape, logged by a producer that escapes it; a line separator inside a value
     out.append(b'{"task_uuid":"u","task_level":[1],"timestamp":1.0,"path":"caf\\udce9","message_type":"m"}\n')
     out.append(b'{"task_uuid":"u","task_level":[1],"timestamp":1.0,"text":["a\\u2028b","\\ud83d"]}\n')
@@ -807,6 +814,10 @@ def gen_cases(ctx):
         if rng.random() < 0.3:
             lines[-1] = lines[-1].rstrip(b"\n") or b"x"
         cases.append(dict(kind="cli", compact=rng.random() < 0.5, local=rng.random() < 0.3, lines=[list(l) for l in lines], tz=rng.choice(TZS)))
+    # non-objects holding the required field names, both formats: on every seed
+    for compact in (False, True):
+        cases.append(dict(kind="cli", compact=compact, local=False, tz=TZS[0],
+                          lines=[list(l) for l in NAMES_AS_ELEMENTS] + [list(b'{"task_uuid":"u","task_level":[1],"timestamp":1.0}\n')]))
     # every known-bad line once, alone (stable keys on every seed)
     for l, _key in bad:
         cases.append(dict(kind="cli", compact=False, local=False, lines=[list(l)]))
